@@ -128,6 +128,79 @@ def law_failures(r, txn, variables, ds):
     return fails
 
 
+FALSE_GUARDS = ['contains("ZZZQ")', 'len(rows) > 99', 'startswith("zzzz")', 'amount > 1000000000000', 'regex("^zzz$")', 'false',
+                'len([r for r in rows if r.amount > 1000000000]) > 0', 'anyof("QQQ", "ZZZ")', 'normalized("qqqq")', 'month == 13', 'fuzzy("QQQQQQQQ")',
+                'len(m) > 0', 'description == "no such line"']
+TRUE_GUARDS = ['len(rows) >= 0', 'amount == amount', 'true', 'contains("")', 'len(description) >= 0', 'not contains("ZZZQ")', 'month >= 0', 'len(m) == 0']
+PARTIAL = ['nosuchvar', 'field.nope == "x"', 'rows[99].item == "x"', '[r for r in rows if r.amount > 1000000000][0].item == "Book"', 'amount > "x"',
+           'next(r for r in rows if r.amount > 1000000000)', 'regex("(")', '1 < description', 'm[0].item == "Book"', 'contains(5)',
+           'extract("(") == ""', 'max(r.amount for r in m) > 1']
+
+
+def short_circuit_items(r, n):
+    """(text, must) pairs: `must` is 'false' / 'true' / 'error' — what left-to-right short-circuit evaluation gives."""
+    out = []
+    for _ in range(n):
+        g0, g1, p = r.choice(FALSE_GUARDS), r.choice(TRUE_GUARDS), r.choice(PARTIAL)
+        k = r.random()
+        if k < 0.3:
+            out.append((f'{g0} and {p}', 'false'))
+        elif k < 0.5:
+            out.append((f'{g1} or {p}', 'true'))
+        elif k < 0.6:
+            out.append((f'{g1} and {g0} and {p}', 'false'))
+        elif k < 0.7:
+            out.append((f'({g0} or {g1}) or {p}', 'true'))
+        elif k < 0.8:
+            out.append((f'{p} and {g0}', 'error'))
+        elif k < 0.9:
+            out.append((f'{p} or {g1}', 'error'))
+        else:
+            out.append((f'{g1} and {p}', 'error'))
+    return out
+
+
+SC_VARS = {'m': []}      # `m`: an empty list bound by the user (the documented guard idiom `len(m) > 0 and m[0].x == …`)
+
+
+def short_circuit_failures(r, txn, n):
+    fails = []
+    for text, must in short_circuit_items(r, n):
+        o = ev(text, txn, SC_VARS)
+        got = 'error' if 'ok' not in o else ('true' if as_bool(o)['ok']['v'] else 'false')
+        if got != must:
+            fails.append({'class': 'short-circuit', 'expr': text, 'observed': o, 'required': must, 'txn': RC.jtxn(txn), 'variables': {'m': []}})
+    return fails
+
+
+LITERALS = ['netflix.com', 'US*AB12', '*STEAM', 'A+B', '(x', '[y', 'a|b', 'c?d', '^UBER', 'UBER$', 'a\\\\b', 'x{2}', '$5', 'J.CREW', 'T?J', 'AT&T', '#45']
+LITERAL_DESCRIPTIONS = ['NETFLIXXCOM 12', 'NETFLIX.COM 12', 'US*AB12 STORE', 'USAB12 STORE', 'USSSAB12', '*STEAM GAMES', 'STEAM GAMES', 'A+B MARKET',
+                        'AAB MARKET', 'UBER (x TRIP', 'a|b shop', 'a shop', 'cd', 'c?d', 'UBER$ x', 'xUBER', '^UBER', 'xx', 'x{2}', 'J.CREW', 'JXCREW',
+                        'TJ MAXX', 'T?J', 'pay $5', 'AT&T #45']
+
+
+def literal_failures(r, n):
+    """contains / startswith / anyof take TEXT, not patterns: the reference reading is Python's `in` / str.startswith on upper-cased text."""
+    fails = []
+    for _ in range(n):
+        desc = r.choice(LITERAL_DESCRIPTIONS)
+        txn = {'description': desc, 'amount': 1.0, 'field': None, 'source': None, 'location': None}
+        p1, p2 = r.choice(LITERALS), r.choice(LITERALS)
+        q1, q2 = p1.replace('\\\\', '\\'), p2.replace('\\\\', '\\')
+        U = desc.upper()
+        for text, want in ((f'contains("{p1}")', q1.upper() in U), (f'startswith("{p1}")', U.startswith(q1.upper())),
+                           (f'anyof("{p1}", "{p2}")', q1.upper() in U or q2.upper() in U),
+                           (f'anyof("{p2}")', q2.upper() in U), (f'"{p1}" in description', q1.upper() in U)):
+            o = ev(text, txn)
+            if not same(o, {'ok': exprs.val_json(want)}):
+                fails.append({'class': 'literal-text', 'expr': text, 'observed': o, 'required': {'ok': exprs.val_json(want)}, 'txn': RC.jtxn(txn)})
+        x, y = ev(f'anyof("{p1}", "{p2}")', txn), ev(f'contains("{p1}") or contains("{p2}")', txn)
+        if not same(x, y):
+            fails.append({'class': 'anyof-vs-or-of-contains', 'lhs': f'anyof("{p1}", "{p2}")', 'rhs': f'contains("{p1}") or contains("{p2}")',
+                          'observed_lhs': x, 'observed_rhs': y, 'txn': RC.jtxn(txn), 'expr': f'anyof("{p1}", "{p2}")'})
+    return fails
+
+
 def _nonfinite(o):
     v = o.get('ok', {})
     return v.get('t') == 'flt' and (v['v'] == 'nan' or math.isinf(common.bits_float(v['v'])))
@@ -197,6 +270,15 @@ def run(ctx):
                    cases=n1, error=json.dumps(dis1[0], default=str)[:1500] if dis1 else None)
     ctx.obligation('correspondence:all small expressions over the compact grammar × boundary transactions', 'correspondence', not dis2,
                    cases=n2, error=json.dumps(dis2[0], default=str)[:1500] if dis2 else None)
+    # guards in front of partial operands (an operand that raises unless the guard short-circuits), and text taken literally
+    sc_items = [(text, GR.gen_txn(r), SC_VARS, ROWS, 'short-circuit') for text, _ in short_circuit_items(r, 400 if ctx.quick else 8000)]
+    for _ in range(150 if ctx.quick else 3000):
+        t_lit = {'description': r.choice(LITERAL_DESCRIPTIONS), 'amount': 1.0, 'field': None, 'source': None, 'location': None}
+        p1, p2 = r.choice(LITERALS), r.choice(LITERALS)
+        sc_items.append((r.choice([f'contains("{p1}")', f'startswith("{p1}")', f'anyof("{p1}", "{p2}")', f'"{p1}" in description']), t_lit, None, ROWS, 'literal'))
+    n5, dis5, st5 = evalcorr.run_stream(sc_items, root=False)
+    ctx.obligation('correspondence:guarded partial operands (short-circuit) and literal text arguments', 'correspondence', not dis5,
+                   cases=n5, error=json.dumps(dis5[0], default=str)[:1500] if dis5 else None)
     # how constant are the generated conditions?
     const = total = 0
     for text, txn, variables, ds, label in items[:400]:
@@ -213,7 +295,13 @@ def run(ctx):
     nl = 0
     if ctx.replay:
         ce = json.loads(common.read(ctx.replay)).get('counterexample', {})
-        if 'lhs' in ce:
+        if ce.get('class') == 'short-circuit':
+            t = RC.untxn(ce['txn'])
+            o = ev(ce['expr'], t, SC_VARS)
+            got = 'error' if 'ok' not in o else ('true' if as_bool(o)['ok']['v'] else 'false')
+            if got != ce['required']:
+                prop_fail.append(ce)
+        elif 'lhs' in ce:
             t = RC.untxn(ce['txn'])
             vs = {'is_large': t['amount'] > 100, 'lbl': t['description'].lower()}
             x, y = ev(ce['lhs'], t, vs), ev(ce['rhs'], t, vs)
@@ -234,18 +322,25 @@ def run(ctx):
         for _ in range(60 if ctx.quick else 2000):
             prop_fail.extend(reference_failures(GR.gen_txn(r)))
             nl += 1
+        for _ in range(40 if ctx.quick else 1500):
+            prop_fail.extend(short_circuit_failures(r, GR.gen_txn(r), 10))
+            nl += 10
+        prop_fail.extend(literal_failures(r, 150 if ctx.quick else 5000))
+        nl += 150 if ctx.quick else 5000
         for t in (evalcorr.BASE_TXN, {'description': '', 'amount': 0.0, 'field': None, 'source': None, 'location': None},
                   {'description': 'x', 'amount': -0.01, 'date': datetime.date(2024, 12, 31), 'field': {}, 'source': '', 'location': ''},
                   {'description': 'Jan', 'amount': 0.01, 'date': datetime.date(2025, 1, 1), 'field': None, 'source': 'S', 'location': None}):
             prop_fail.extend(reference_failures(t))
-    ctx.cov['evaluations'] = n1 + n2 + nl
-    ctx.cov['traces_validated_against_impl'] = n1 + n2
+    ctx.cov['evaluations'] = n1 + n2 + n5 + nl
+    ctx.cov['traces_validated_against_impl'] = n1 + n2 + n5
     ctx.cov['distinct_nontrivial'] = len({i[0] for i in items}) + len({i[0] for i in small})
     ctx.cov['exhaustive'] = False
     ctx.cov['rule'] = ('type-directed random expressions (bool / num / str; literals drawn from the transaction\'s own words so that '
                        'conditions are not constant — measured fraction reported), ALL expressions with ≤ 1 operator (thorough: a 150k sample of '
                        '≤ 2) over a 12-leaf grammar × 3 boundary transactions, compared model vs real evaluator; then the laws of the '
-                       'reference as metamorphic relations on the real evaluator and Python\'s own comprehensions as the reference answer. '
+                       'reference as metamorphic relations on the real evaluator and Python\'s own comprehensions as the reference answer; guards in front of partial '
+                       'operands (false-guard and P = False, true-guard or P = True, P first = error) and contains/startswith/anyof/in on text full of regex '
+                       'metacharacters against Python\'s own `in`/startswith, both also run model-vs-implementation. '
                        'distinct_nontrivial = distinct expression texts evaluated')
     ctx.notes['outcomes_random'] = st1['outcomes']
     ctx.notes['outcomes_small'] = st2['outcomes']
@@ -257,6 +352,9 @@ def run(ctx):
         out = []
         for _ in range(4000):
             out.extend(law_failures(r, GR.gen_txn(r), None, ROWS))
+            out.extend(short_circuit_failures(r, GR.gen_txn(r), 3))
+            if not out and _ % 10 == 0:
+                out.extend(literal_failures(r, 5))
             if out:
                 break
         ctx.cov['evaluations'] += 4000
